@@ -257,6 +257,9 @@ var blockers = map[string]string{
 	"nested-range-slices": "a := make([]int, 4000)\ns := 0\nfor range a {\n\tfor range a {\n\t\tfor _, v := range a {\n\t\t\ts += v\n\t\t}\n\t}\n}\n_ = s\n",
 	"nested-range-string": "str := \"\"\nfor i := 0; i < 12; i++ {\n\tstr += str + \"é\"\n}\nn := 0\nfor range str {\n\tfor range str {\n\t\tfor _, r := range str {\n\t\t\tn += int(r)\n\t\t}\n\t}\n}\n_ = n\n",
 	"nested-range-map":    "m := map[int]int{}\nfor i := 0; i < 3000; i++ {\n\tm[i] = i\n}\ns := 0\nfor range m {\n\tfor range m {\n\t\tfor k, v := range m {\n\t\t\ts += k + v\n\t\t}\n\t}\n}\n_ = s\n",
+	"func-value-in-loop":  "fs := []func(int) int{func(x int) int { return x + 1 }}\ns := 0\nfor {\n\ts = fs[0](s)\n}\n",
+	"loop-in-func-value":  "m := map[string]func(){\"f\": func() {\n\tfor {\n\t}\n}}\nm[\"f\"]()\n",
+	"func-value-iface":    "var f interface{} = func(x int) int {\n\tfor i := 0; i < 100; i++ {\n\t\tx += i\n\t}\n\treturn x\n}\ns := 0\nfor {\n\ts = f.(func(int) int)(s)\n}\n",
 	"nested-range-int":    "s := 0\nfor range 4000 {\n\tfor range 4000 {\n\t\tfor i := range 4000 {\n\t\t\ts += i\n\t\t}\n\t}\n}\n_ = s\n",
 }
 
